@@ -8,6 +8,7 @@ ranks (heap addresses) and ALL event orders `compare_events` may produce.
 -/
 import AdaptaVerif.Lemmas.ScanlineCheck
 import AdaptaVerif.Lemmas.ScanlineExample
+import AdaptaVerif.Lemmas.ScanlineSort
 namespace AdaptaVerif.Props.C09
 open AdaptaVerif.Model.Scanline AdaptaVerif.Spec.Rects AdaptaVerif.Check.Rects
 open AdaptaVerif.Lemmas.Scanline AdaptaVerif.Lemmas.Scanline.Example
@@ -74,6 +75,13 @@ theorem genx_separates (rs : Array Rect) (bx b : Rat) (rank : Nat → Nat) (inj 
     x i + ((rectAt rs i).width bx + (rectAt rs j).width bx) / 2 ≤ x j ∨
     x j + ((rectAt rs i).width bx + (rectAt rs j).width bx) / 2 ≤ x i :=
   scanPtr_separates inj hv hgood (by simpa [generateXConstraints] using hsat) hi hj hij hmeet
+
+/-- For every rectangle array and every border there IS a valid event order (the stable sort the
+    driver uses), so the hypothesis `ValidOrder` of the separation theorems is never vacuous. -/
+theorem valid_order_exists (rs : Array Rect) (bx b : Rat) :
+    ValidOrder (yAxis rs bx b) rs.size (sortEvents (yAxis rs bx b) rs.size) ∧
+    ValidOrder (xAxis rs bx b) rs.size (sortEvents (xAxis rs bx b) rs.size) :=
+  ⟨sortEvents_valid _ _, sortEvents_valid _ _⟩
 
 /-- On valid input the firstAbove/firstBelow pointer bookkeeping produces exactly the
     constraints obtained by looking up the scan-line neighbours at Close time. -/
